@@ -168,8 +168,8 @@ def check_instance(inst, miss_names):
     # (3) misses
     sentinel = object()
     for n in miss_names:
-        if hasattr(type(inst), n) or n in definers:
-            continue
+        if hasattr(type(inst), n) or n in definers or any(hasattr(type(x), n) for x in all_on_path):
+            continue  # defined after all: by the class, or by a reachable sub-aggregate (element or property: flat access)
         try:
             if hasattr(inst, n):
                 out.append(("miss-hasattr-true", f"{name}: hasattr(x, {n!r})"))
